@@ -11,10 +11,12 @@ import (
 	"math/rand"
 	"net"
 	"os"
+	"os/exec"
 	"sync"
 	"sync/atomic"
 	"syscall"
 	"time"
+	"unsafe"
 
 	"github.com/coredhcp/coredhcp/config"
 	"github.com/coredhcp/coredhcp/handler"
@@ -622,6 +624,44 @@ func runPinning(t *Trace, seed int64) {
 			mu.Unlock()
 			t.Emit(e)
 		}
+		// ... and a request that really ARRIVES on another interface than the one that carries the listen address: an IP packet
+		// written into a tun device of this run (weak host model: the kernel delivers it to the socket on o.ip)
+		if !o.ip.IsLoopback() {
+			if tun, tunIdx, src, cleanup := openTun(k); tun != nil {
+				mu.Lock()
+				got = nil
+				mu.Unlock()
+				m, _ := dhcpv4.New(dhcpv4.WithMessageType(dhcpv4.MessageTypeDiscover), dhcpv4.WithBroadcast(true))
+				m.ClientHWAddr = net.HardwareAddr{2, 0, 7, 8, byte(k), 1}
+				tun.Write(udpPacket4(src, o.ip, 68, uint16(port), m.ToBytes()))
+				e := Ev{"ev": "pin4", "listen": o.name, "listenif": o.ifindex, "arrived": tunIdx, "bflag": true, "sent": false, "woob": false, "ifindex": 0, "pbc": false, "l2": false, "via": "tun"}
+				for w := 0; w < 100; w++ {
+					mu.Lock()
+					n := len(got)
+					mu.Unlock()
+					if n > 0 {
+						break
+					}
+					time.Sleep(20 * time.Millisecond)
+				}
+				mu.Lock()
+				if len(got) > 0 && got[0].Resp != nil {
+					s := got[0]
+					e["sent"], e["l2"] = true, s.L2
+					if s.Peer != nil {
+						e["pbc"] = s.Peer.IP.Equal(net.IPv4bcast)
+					}
+					if s.Woob != nil {
+						e["woob"], e["ifindex"] = true, s.Woob.IfIndex
+					}
+				}
+				mu.Unlock()
+				t.Emit(e)
+				cleanup()
+			} else {
+				t.Emit(Ev{"ev": "note", "what": "pinning: no tun device in this sandbox, arrival on another interface not exercised"})
+			}
+		}
 		srv.Close()
 		done := make(chan error, 1)
 		go func() { done <- srv.Wait() }()
@@ -630,4 +670,56 @@ func runPinning(t *Trace, seed int64) {
 		case <-time.After(5 * time.Second):
 		}
 	}
+}
+
+// openTun creates a tun device for this run (it disappears when the descriptor is closed), gives it 10.77.<k>.1/24 and brings it up;
+// returns the device, its interface index and a source address on its subnet.
+func openTun(k int) (*os.File, int, net.IP, func()) {
+	fd, err := syscall.Open("/dev/net/tun", syscall.O_RDWR, 0)
+	if err != nil {
+		return nil, 0, nil, nil
+	}
+	name := fmt.Sprintf("vfp%d", os.Getpid()%100000)
+	var ifr [40]byte
+	copy(ifr[:15], name)
+	ifr[16], ifr[17] = 0x01, 0x10 // IFF_TUN | IFF_NO_PI
+	if _, _, e := syscall.Syscall(syscall.SYS_IOCTL, uintptr(fd), 0x400454ca /* TUNSETIFF */, uintptr(unsafe.Pointer(&ifr[0]))); e != 0 {
+		syscall.Close(fd)
+		return nil, 0, nil, nil
+	}
+	f := os.NewFile(uintptr(fd), "tun")
+	sub := 100 + k%100
+	if exec.Command("ip", "addr", "add", fmt.Sprintf("10.77.%d.1/24", sub), "dev", name).Run() != nil || exec.Command("ip", "link", "set", name, "up").Run() != nil {
+		f.Close()
+		return nil, 0, nil, nil
+	}
+	exec.Command("sysctl", "-q", "-w", "net.ipv4.conf."+name+".rp_filter=0").Run()
+	x, err := net.InterfaceByName(name)
+	if err != nil {
+		f.Close()
+		return nil, 0, nil, nil
+	}
+	return f, x.Index, net.IPv4(10, 77, byte(sub), 2).To4(), func() { f.Close() }
+}
+
+// udpPacket4: an IPv4 packet with a UDP datagram (no UDP checksum: optional over IPv4)
+func udpPacket4(src, dst net.IP, sport, dport uint16, payload []byte) []byte {
+	ulen := 8 + len(payload)
+	p := make([]byte, 20+ulen)
+	p[0], p[8], p[9] = 0x45, 64, 17
+	p[2], p[3] = byte((20+ulen)>>8), byte(20+ulen)
+	copy(p[12:16], src.To4())
+	copy(p[16:20], dst.To4())
+	var sum uint32
+	for i := 0; i < 20; i += 2 {
+		sum += uint32(p[i])<<8 | uint32(p[i+1])
+	}
+	for sum>>16 != 0 {
+		sum = sum&0xffff + sum>>16
+	}
+	p[10], p[11] = byte(^sum>>8), byte(^sum)
+	p[20], p[21], p[22], p[23] = byte(sport>>8), byte(sport), byte(dport>>8), byte(dport)
+	p[24], p[25] = byte(ulen>>8), byte(ulen)
+	copy(p[28:], payload)
+	return p
 }
